@@ -210,7 +210,7 @@ package redis
 //@   ensures @ri readerRI(b)
 //@   ensures @line result1 == nil ==> len(result0) >= 1
 //@   loop 0 invariant readerRI(b) && 0 <= size && (!isnil(last) ==> size >= len(last) && len(last) >= 1)
-//@   loop 0 assume size <= 4611686018427387904 && len(b.buf) <= 4611686018427387904
+//@   loop 0 assume size <= 2305843009213693952 && len(b.buf) <= 2305843009213693952
 //@   loop 1 invariant 0 <= n && n <= len(buf) && len(buf) == size && !isnil(last) && size >= len(last) && len(last) >= 1
 
 //@ func (*Reader).ReadFull
